@@ -279,7 +279,7 @@ PC_CLASSES = [('plain', list('abcXYZ019_'), 30), ('okpunct', list('@%+=:,./-'), 
 ROOTS = ['prefix', 'exec_prefix', 'includedir', 'libdir', 'srcdir', 'builddir']
 CORPUS_FLAGS = ['-DX=a b', "-DQ='q'", '-DS="s t"', '-DY=$z', '-DZ=$', '-DW=a\\b', "'", "''", "a'", "'a", "it's", '\\', '$$',
                 '-DH=a#b', '#', '-DV=${prefix}', '${x}', '$ {x}', '-D{=}', '-pthread', '-std=c++11', 'é', '-Dα=€', '-DX=a\tb',
-                '-I/opt/my inc', '-Wl,-rpath,/x y', '-']
+                '-I/opt/my inc', '-Wl,-rpath,/x y', '-', 'a\\#b', 'a\\\\#b', '\\\\', 'a\\', '-I/opt//x', '-isystem', '/q//r']
 
 
 def flag_frags(thing):
@@ -456,6 +456,38 @@ def parse_pkgconf_output(b):
     return [a.decode('utf-8', 'surrogateescape') for a in args]
 
 
+UNMERGEABLE = ['-framework', '-isystem', '-idirafter', '-pthread', '-Wa,', '-Wl,', '-Wp,', '-trigraphs', '-pedantic', '-ansi',
+               '-std=', '-stdlib=', '-include', '-nostdinc', '-nostdlibinc', '-nobuiltininc']
+
+
+def canon_args(args):
+    """What pkgconf's fragment list makes observable of an argument list: data of a typed fragment -Xdata and of a word
+    appended to an untyped fragment has runs of slashes collapsed when it starts with a slash (same path); a run of two
+    or more untyped words is printed as ONE fragment with unescaped blanks, so blanks inside those words are lost."""
+    import re
+
+    def untyped(a):
+        return len(a) <= 1 or not a.startswith('-') or a.startswith('-lib:') or any(a.startswith(p) for p in UNMERGEABLE)
+
+    def collapse(s):
+        return re.sub('/+', '/', s) if s.startswith('/') else s
+    groups = []
+    for a in args:
+        if not untyped(a):
+            groups.append((False, [a[:2] + collapse(a[2:])]))
+        elif groups and groups[-1][0]:
+            groups[-1][1].append(collapse(a))
+        else:
+            groups.append((True, [a]))
+    out = []
+    for u, g in groups:
+        if u and len(g) > 1:
+            out.extend(w for a in g for w in a.split(' ') if w)
+        else:
+            out.extend(g)
+    return out
+
+
 def pc_vars(d):
     return [list(v) for v in PC_VARS] + [['builddir', os.path.join(d, 'pkgconfig') + '/..'],
                                          ['pcfiledir', os.path.join(d, 'pkgconfig')]]
@@ -523,7 +555,10 @@ def stage_pkgconf(rep, rng, n, seen_disagreement=False):
             mv = d_opt(lambda x: d_list(d_str, x), r)
             if mv is None:
                 mv = []        # a field whose argv split fails (unbalanced quote) yields no fragments, exit status 0
-            want = denote(fl, vars_)
+            mv = canon_args(mv)
+            want = canon_args(denote(fl, vars_))
+            if real is not None:
+                real = canon_args(real)
             rep.case('p:' + t, nontrivial_frags([fr for f in fl for fr in flag_frags(f)]))
             rep.count('pkgconf:' + ('error' if real is None else 'ok'))
             if mv != real:
